@@ -104,6 +104,18 @@ CHECKS = {
         text="Each documented scalar function and alias is evaluated on ASCII / multi-byte / combining / whitespace / numeric / out-of-range arguments, on literals and on name/size/modified of generated entries, nested to depth 3, and with ill-typed, missing and huge arguments.",
         note="Trusted: Python str/base64/math/datetime; don't-care list in the evidence assumptions.",
         ref="DESIGN.md section 3 / C16"),
+    "C04": dict(
+        level="exploration",
+        technique="runtime monitoring: OS-truth oracle (lstat / listxattr / hashlib / pwd) over real executions; exhaustive permission and capability sub-spaces; blocked-forever watchdog",
+        text="Cells printed by the real binary are compared with what the OS and the content say: all 4096 permission values on disk (files) and a 512-value sample of directories, every creatable entry kind, owners with and without names, three time zones, contents up to 1 MiB at buffer boundaries, user xattrs, each of the 41 capabilities x 6 flag sets, every extension list under default and overridden configuration, zip entry modes for 7 types, content columns on FIFOs/sockets/devices.",
+        note="Trusted: Python os/stat/hashlib/pwd/grp/zipfile; tmpfs semantics. Content columns of symlinks and contains() on non-UTF-8 files are don't-care.",
+        ref="DESIGN.md section 3 / C04"),
+    "C10": dict(
+        level="exploration",
+        technique="runtime monitoring: safety monitor over hostile argument vectors (status in {0,1,2}, no panic text, no signal, RLIMIT_CPU busy-loop verdict, /proc-classified blocking), directed expected-status classes",
+        text="Token soups, token-level mutations of valid queries, functions with ill-typed / missing / huge arguments and 60 directed malformed queries (one-argument and fully split) are executed against a non-empty tree; every run is judged for termination, status and diagnostics.",
+        note="Trusted: RLIMIT_CPU 5 s as the busy-loop decider; soups are filtered to keep the search inside the scratch tree.",
+        ref="DESIGN.md section 3 / C10"),
 }
 
 NOT_APPLICABLE = {}
